@@ -629,6 +629,30 @@ def rule_C15(ctx, rule="C15"):
             ok = ok and init == ["LeanString::new"]
             why += " initialised by %s" % init
         ctx.ob(rule, key, "fallback=write!(LeanString::new(), \"{}\", self)", ok, how="generic arm formats into an empty LeanString through fmt::Write", detail="generic fallback: %s" % why)
+        # ... with the plain `{}` template: one default placeholder and nothing else.  The compiler encodes the
+        # format string as a byte template (core::fmt::Arguments docs): a placeholder is one byte 0b11______
+        # followed by >= 2 bytes per option present (flags such as `#`, width, precision, explicit index), a
+        # literal piece is its length + its bytes, the end is one 0 byte.  A template of exactly 2 bytes over
+        # exactly 1 argument can therefore only be b"\xC0\0" = "{}"; `{:#}`, `{:>8}`, "{} " are all longer.
+        if len(wf) == 1:
+            hb, bb, t = wf[0]
+            src = strip_refs(hb.origin_operand(t["args"][1]))
+            plain, got = False, describe(hb, src)[:120]
+            if src[0] == "call":
+                ta = hb.term(src[1])
+                if callee_name(ta) == "core::fmt::Arguments::<'a>::new":
+                    got = "Arguments::new::<%s>" % ", ".join(ta.get("generic_args") or [])
+                    plain = ta.get("generic_args") == ["2", "1"]
+                    if plain:
+                        # the one argument is the value's Display impl
+                        arr = strip_refs(hb.origin_operand(ta["args"][1]))
+                        while arr[0] in ("ref", "rawptr"):
+                            arr = strip_refs(arr[2])
+                        mk = [callee_name(x2) for _, x2 in hb.calls() if callee_name(x2).startswith("core::fmt::rt::Argument::<'a>::new_") or callee_name(x2).startswith("core::fmt::rt::Argument::<'_>::new_")]
+                        if mk and any(not m.endswith("::new_display") for m in mk):
+                            plain, got = False, got + " over " + ", ".join(mk)
+            ctx.ob(rule, key, "fallback-template={}", plain, how="the fallback's format template is the 2-byte, 1-argument template (= \"{}\": default placeholder, no flags / width / precision, no literal text) over Argument::new_display",
+                   detail="the generic fallback formats the value with %s, not with the plain \"{}\" template (2 template bytes, 1 Display argument): formatting options or literal text change what a Display impl writes" % got)
         # its error becomes the Fmt variant (through `?` + From<fmt::Error>, or built directly)
         inst = [t.get("inst") for _, _, t in inlined_calls(b) if "from_residual" in callee_name(t)]
         direct = False
